@@ -43,7 +43,7 @@ from ..vloop import virtual_loop
 PID = "C16"
 MAXAGE, MINB, MAXB = 5.0, 1.0, 4.0
 
-BAT_KINDS = ["ok", "stale", "bad-state", "relay-open", "critical", "nan-capacity"]
+BAT_KINDS = ["ok", "stale", "bad-state", "relay-open", "relay-error", "critical", "nan-capacity"]
 INV_KINDS = ["ok", "stale", "bad-state", "critical"]
 WAITS = [1.0, 4.0, 5.0, 6.0]
 RESULTS = ["ok", "fail", "none"]
@@ -65,6 +65,8 @@ def batmsg(cid, kind, now):
         kw["state"] = BatteryComponentState.ERROR
     elif kind == "relay-open":
         kw["relay"] = BatteryRelayState.OPENED
+    elif kind == "relay-error":
+        kw["relay"] = BatteryRelayState.ERROR  # any state but CLOSED is non-operational
     elif kind == "critical":
         kw["errors"] = [BatteryError(level=ErrorLevel.CRITICAL, message="boom")]
     elif kind == "nan-capacity":
@@ -564,7 +566,7 @@ def run(tier: str, seed: int, workers: int):
     acc.merge(bfs(tier, 10 if tier == "quick" else 13, workers))
     meta = {
         "rule": "every history over the alphabet {battery message: healthy / stale / bad component state / open relay / critical "
-        "error / NaN capacity; inverter message: healthy / stale / bad state / critical error; silence 1, 4, 5 (exactly the "
+        "error / relay in ERROR / NaN capacity; inverter message: healthy / stale / bad state / critical error; silence 1, 4, 5 (exactly the "
         "maximum age), 6 s; set-power result succeeded / failed / not mentioned} to the stated depth, from a healthy start, "
         "from a cold start and after a failure; each history is one execution of the real tracker, compared step by step with "
         "the reference; non-trivial = the notification sequence contains UNCERTAIN or both WORKING and NOT_WORKING; plus the "
